@@ -1,7 +1,54 @@
 import Osmium.Generated.Src
 open Osmium.Generated
 def b (x : Bool) : Nat := if x then 1 else 0
-def main : IO Unit := do
+def unhex (h : String) : List UInt8 :=
+  if h == "-" then [] else
+  let v (c : Char) : Nat := if c.isDigit then c.toNat - 48 else c.toNat - 87
+  let rec go : List Char → List UInt8
+    | a :: c :: r => UInt8.ofNat (v a * 16 + v c) :: go r
+    | _ => []
+  go h.toList
+/-- phase 3: character cursors; the translated definition runs on the bytes + NUL with ample fuel; an input on which
+    `_defined` is false prints UNDEFINED (the compiled code has no such line: a mismatch) -/
+def cursorTests (path : String) : IO Unit := do
+  let txt ← IO.FS.readFile path
+  for line in txt.splitOn "\n" do
+    match line.splitOn " " with
+    | [kind, hex] =>
+      let buf := unhex hex ++ [0]
+      let fuel := buf.length + 10
+      let showI (d : Bool) (o : Osmium.CxxSem.Outcome Int Int) : IO Unit :=
+        if !d then IO.println s!"{kind} {hex} UNDEFINED" else
+        match o with
+        | .normal i r => IO.println s!"{kind} {hex} ok {r} {i}"
+        | .thrown e i => IO.println s!"{kind} {hex} {e} {i}"
+        | .nofuel => IO.println s!"{kind} {hex} NOFUEL"
+      let showB (d : Bool) (o : Osmium.CxxSem.Outcome Int Bool) : IO Unit :=
+        showI d (match o with | .normal i r => .normal i (if r then 1 else 0) | .thrown e i => .thrown e i | .nofuel => .nofuel)
+      let showU (d : Bool) (o : Osmium.CxxSem.Outcome Int Unit) : IO Unit :=
+        showI d (match o with | .normal i _ => .normal i 0 | .thrown e i => .thrown e i | .nofuel => .nofuel)
+      if kind == "oplint64" then
+        showI (Src.OplParserFunctions.opl_parse_int_ppc_ri64_defined fuel buf 0) (Src.OplParserFunctions.opl_parse_int_ppc_ri64 fuel buf 0)
+      if kind == "oplintu32" then
+        showI (Src.OplParserFunctions.opl_parse_int_ppc_ru32_defined fuel buf 0) (Src.OplParserFunctions.opl_parse_int_ppc_ru32 fuel buf 0)
+      if kind == "oplid" then
+        showI (Src.OplParserFunctions.opl_parse_id_defined fuel buf 0) (Src.OplParserFunctions.opl_parse_id fuel buf 0)
+      if kind == "oplvisible" then
+        showB (Src.OplParserFunctions.opl_parse_visible_defined buf 0) (Src.OplParserFunctions.opl_parse_visible buf 0)
+      if kind == "oplspace" then
+        showU (Src.OplParserFunctions.opl_parse_space_defined fuel buf 0) (Src.OplParserFunctions.opl_parse_space fuel buf 0)
+      if kind == "oplnonempty" then
+        showI (Src.OplParserFunctions.opl_non_empty_defined buf 0) (.normal 0 (if Src.OplParserFunctions.opl_non_empty buf 0 then 1 else 0))
+      if kind == "fracsec" then
+        showB (Src.Timestamp.fractional_seconds_defined fuel buf 0) (Src.Timestamp.fractional_seconds fuel buf 0)
+      if kind == "coord" then
+        if !Src.Location.string_to_location_coordinate_defined 200000 buf 0 then IO.println s!"coord {hex} UNDEFINED"
+        else match Src.Location.string_to_location_coordinate 200000 buf 0 with
+          | .normal i r => IO.println s!"coord {hex} ok {r} {i}"
+          | .thrown e i => IO.println s!"coord {hex} {e} {i}"
+          | .nofuel => IO.println s!"coord {hex} NOFUEL"
+    | _ => pure ()
+def main (args : List String) : IO Unit := do
   for l in [0, 1, 7, 8, 9, 63, 64, 65, 1000, 18446744073709551608, 18446744073709551609, 18446744073709551613, 18446744073709551615] do
     IO.println s!"pl {l} {Src.Item.padded_length l}"
   let ids : List Int := [0, 1, -1, 5, -5, 7, -7, 9223372036854775807, -9223372036854775807, -9223372036854775808]
@@ -108,4 +155,6 @@ def main : IO Unit := do
       o := match Src.Object.OSMObject.set_deleted o d with | .normal s _ => s | _ => o
       o := match Src.Object.OSMObject.set_version_u32 o v with | .normal s _ => s | _ => o
       IO.println s!"sv {v} {b d} {Src.Object.OSMObject.version o} {b (Src.Object.OSMObject.deleted o)}"
-
+  match args with
+  | [p] => cursorTests p
+  | _ => pure ()
